@@ -28,7 +28,9 @@ type Case struct {
 	Actions []string `json:"actions"`
 }
 
-func (c Case) key() string { return fmt.Sprintf("%s i%d r%v %s", c.Node, c.Initial, c.Repeat, strings.Join(c.Actions, " ")) }
+func (c Case) key() string {
+	return fmt.Sprintf("%s i%d r%v %s", c.Node, c.Initial, c.Repeat, strings.Join(c.Actions, " "))
+}
 
 const keyD = "/m/d"
 
@@ -75,14 +77,14 @@ func contains(xs []uint64, x uint64) bool {
 
 // obs is the shared monitor state of one node across its processes.
 type obs struct {
-	r       *vk.Run
-	viol    []string
-	mu      sync.Mutex
-	lastD   uint64 // highest DA-included height ever observed (also across restarts)
-	finals  []uint64
-	getD    func() uint64
-	im      *world.Image
-	crashes int
+	r             *vk.Run
+	viol          []string
+	mu            sync.Mutex
+	lastD         uint64 // highest DA-included height ever observed (also across restarts)
+	finals        []uint64
+	getD          func() uint64
+	im            *world.Image
+	crashes       int
 	finalsAtCrash map[int]bool // index into finals at which a crash happened (a repeat is allowed right after)
 }
 
@@ -160,22 +162,22 @@ func (o *obs) observe(chainHeight uint64) uint64 {
 // ---------------------------------------------------------------- aggregator
 
 type agg struct {
-	c     Case
-	ctx   context.Context
-	im    *world.Image
-	exec  *world.ExecDouble
-	seq   *world.SeqDouble
-	da    *world.DADouble
-	keys  world.Keys
-	n     *world.Node
-	l     *world.Loops
-	o     *obs
-	root  string
-	t     time.Time
-	k     int
-	logs  [][]world.WriteRec
+	c          Case
+	ctx        context.Context
+	im         *world.Image
+	exec       *world.ExecDouble
+	seq        *world.SeqDouble
+	da         *world.DADouble
+	keys       world.Keys
+	n          *world.Node
+	l          *world.Loops
+	o          *obs
+	root       string
+	t          time.Time
+	k          int
+	logs       [][]world.WriteRec
 	gapAtCrash bool // a crash happened while accepted heights were not yet included
-	curM  atomic.Pointer[world.Node]
+	curM       atomic.Pointer[world.Node]
 }
 
 func (a *agg) start() error {
